@@ -139,6 +139,9 @@ def cases_for(name, tier):
             out.append({"params": base, "pi": pi1, "config": "bins", "bins": {"mode": "free", "n": n, "bprobs": bp}})
             if terms and n < 4:
                 out.append({"params": base, "pi": pi1, "config": "bins", "bins": {"mode": "ordered", "param": terms[0], "n": n, "bprobs": bp}})
+    # rate classes named by the user in an order that is not the sorted one
+    out.append({"params": base, "pi": pi1, "config": "bins", "bins": {"mode": "gamma", "n": 2, "shape": 1.0, "bprobs": [0.3, 0.7], "names": ["slow", "fast"]}})
+    out.append({"params": base, "pi": pi1, "config": "bins", "bins": {"mode": "free", "n": 3, "bprobs": [0.2, 0.3, 0.5], "names": ["b", "c", "a"]}})
     return out
 
 
@@ -154,6 +157,7 @@ def shards(tier, seed):
             out.append({"model": name, "chunk": c, "of": k, "tier": tier})
     out.append({"model": "BH", "discrete": True, "tier": tier})
     out.append({"model": "DT", "discrete": True, "tier": tier})
+    out.append({"model": "reversible-refusal", "refusals": True, "tier": tier})
     return out
 
 
@@ -234,7 +238,7 @@ def check_case(name, case, acc, report=True):
     eye = numpy.eye(n)
     binset = D.bin_setup(spec)
     nb = len(binset)
-    bin_names = [f"bin{i}" for i in range(nb)]
+    bin_names = (case.get("bins") or {}).get("names") or [f"bin{i}" for i in range(nb)]
 
     # ---- rate classes
     if nb > 1:
@@ -493,7 +497,44 @@ def check_discrete(name, acc, report=True):
     return fails
 
 
+def check_reversible_refusals(acc, report=True):
+    """the time-reversible model classes must not take predicates under which detailed balance cannot hold: a directed
+    predicate alone, and - the pair that sums to a symmetric mask - a directed predicate together with its mirror image"""
+    from cogent3.evolve import substitution_model as sm
+    from cogent3.evolve.predicate import MotifChange
+
+    fails = []
+    ag = MotifChange("A", "G", forward_only=True)
+    ga = MotifChange("G", "A", forward_only=True)
+    ct = MotifChange("C", "T", forward_only=True)
+    for label, preds in (("one directed predicate", [ag]), ("a directed predicate and its mirror image", [ag, ga]),
+                         ("two mirrored pairs", [ag, ga, ct, MotifChange("T", "C", forward_only=True)])):
+        for cls_name in ("TimeReversibleNucleotide",):
+            case = {"model": "reversible-refusal", "class": cls_name, "predicates": label}
+            acc.case(case)
+            try:
+                m = getattr(sm, cls_name)(predicates=list(preds), recode_gaps=True, model_gaps=False)
+            except ValueError:
+                acc.outcome(("refused", label))
+                continue
+            except Exception as e:  # noqa: BLE001
+                sig = f"{cls_name}: raised {type(e).__name__} for {label}"
+                fails.append((sig, {"error": str(e)[:200]}))
+                if report:
+                    acc.fail(sig, case, {"error": str(e)[:200]})
+                continue
+            # accepted: then the process it defines must be reversible - it cannot be when the two rates differ
+            sig = f"{cls_name} accepted {label}: the parameters act on (i,j) and (j,i) separately, so detailed balance cannot hold"
+            fails.append((sig, {"parameters": list(m.get_param_list())}))
+            if report:
+                acc.fail(sig, case, {"parameters": list(m.get_param_list())})
+    return fails
+
+
 def run_shard(spec, acc):
+    if spec.get("refusals"):
+        check_reversible_refusals(acc)
+        return
     if spec.get("discrete"):
         check_discrete(spec["model"], acc)
         return
@@ -511,6 +552,8 @@ def replay(case):
 
     case = dict(case)
     name = case.pop("model")
+    if name == "reversible-refusal":
+        return check_reversible_refusals(Acc(), report=False)
     if case.get("discrete"):
         return check_discrete(name, Acc(), report=False)
     return check_case(name, case, Acc(), report=False)
